@@ -32,6 +32,14 @@ impl Header {
   /// What is the value kind of this object
   #[inline]
   pub fn kind(&self) -> ObjectKind {
+    #[cfg(feature = "verif")]
+    {
+      let address = &self.kind as *const ObjectKind as *const u8;
+      let byte = unsafe { std::ptr::read_volatile(address) };
+      if byte > ObjectKind::Tuple as u8 {
+        crate::verif::corrupt(address, byte)
+      }
+    }
     self.kind
   }
 }
@@ -39,6 +47,8 @@ impl Header {
 impl Mark for Header {
   #[inline]
   fn mark(&self) -> bool {
+    #[cfg(feature = "verif")]
+    crate::verif::check_mark_byte(&self.marked as *const AtomicBool as *const u8);
     self.marked.swap(true, Ordering::Release)
   }
 }
@@ -46,6 +56,8 @@ impl Mark for Header {
 impl Unmark for Header {
   #[inline]
   fn unmark(&self) -> bool {
+    #[cfg(feature = "verif")]
+    crate::verif::check_mark_byte(&self.marked as *const AtomicBool as *const u8);
     self.marked.swap(false, Ordering::Release)
   }
 }
@@ -53,6 +65,8 @@ impl Unmark for Header {
 impl Marked for Header {
   #[inline]
   fn marked(&self) -> bool {
+    #[cfg(feature = "verif")]
+    crate::verif::check_mark_byte(&self.marked as *const AtomicBool as *const u8);
     self.marked.load(Ordering::Acquire)
   }
 }
